@@ -18,6 +18,8 @@ REPS = {
     "mdn": (["-i", "mdn"], lambda n: "%d" % R.mdn(n), None),
     "jdn": (["-i", "jdn"], lambda n: "%.6f" % R.jdn(n), None),
     "bizda": ([], R.f_bizda, R.is_bday),
+    # Sundays with the weekday written 00, the form the project's own tests use (input only)
+    "ymcw0": ([], lambda n: R.f_ymcw(n)[:-2] + "00", lambda n: R.wday(n) == 7),
 }
 JDN_IN = lambda n: "%.1f" % R.jdn(n)
 
